@@ -124,8 +124,8 @@ pub fn gen_reuse_case(rng: &mut Rng, async_mode: bool) -> Vec<String> {
 }
 
 /// C10/C11: one solve with an asynchronous provider and a manual single-threaded executor.
-pub fn gen_async_case(rng: &mut Rng) -> Vec<String> {
-    let kind = *rng.pick(&[Kind::General, Kind::Tight, Kind::Hints, Kind::Soft, Kind::Lazy, Kind::ConflictFree]);
+pub fn gen_async_case(rng: &mut Rng, conflict_free: bool) -> Vec<String> {
+    let kind = if conflict_free { Kind::ConflictFree } else { *rng.pick(&[Kind::General, Kind::Tight, Kind::Hints, Kind::Soft, Kind::Lazy, Kind::ConflictFree]) };
     let g = gen::generate(rng, kind);
     let mut lines = g.u.to_lines();
     lines.push(g.p.to_line());
@@ -133,6 +133,50 @@ pub fn gen_async_case(rng: &mut Rng) -> Vec<String> {
     cfg.sched = match rng.below(4) { 0 => "fifo".into(), 1 => "lifo".into(), _ => format!("rand:{}", rng.below(1 << 30)) };
     cfg.gate_fs = rng.chance(1, 3);
     lines.push(cfg.to_line());
+    lines
+}
+
+/// C15 (verdict level): one package with n candidates (n = 1..70, every power of two crossed) revealed in a
+/// random order and grouping; the problem requires two different candidates (must be Unsolvable) or one (solvable).
+pub fn gen_amo_solve_case(rng: &mut Rng, idx: usize) -> Vec<String> {
+    let n = 1 + (idx % 70) as u32;
+    let mut u = Universe::default();
+    // package 0: the n candidates (ids 0..n), package 1: the revealer r (id n)
+    let mut ids: Vec<u32> = (0..n).collect();
+    rng.shuffle(&mut ids);
+    let mut ranks: Vec<u32> = (0..n).collect();
+    rng.shuffle(&mut ranks);
+    for (k, &c) in ids.iter().enumerate() { u.solvs.insert(c, Solv { name: 0, rank: ranks[k], deps: Deps::Known { reqs: vec![], cons: vec![] } }); }
+    u.pkgs.insert(0, Pkg { cands: ids.clone(), hint: if rng.chance(1, 3) { Hint::All } else { Hint::None }, ..Default::default() });
+    // random partition of the candidates into groups, each a version set; the union lists them in random order
+    let mut order = ids.clone();
+    rng.shuffle(&mut order);
+    let mut groups: Vec<Vec<u32>> = Vec::new();
+    let mut i = 0usize;
+    while i < order.len() { let k = rng.range(1, (order.len() - i).min(9) as u64) as usize; groups.push(order[i..i + k].to_vec()); i += k; }
+    let mut vs_id = 0u32;
+    let mut members = Vec::new();
+    for g in &groups { u.vsets.insert(vs_id, VSet { name: 0, matching: g.clone() }); members.push(vs_id); vs_id += 1; }
+    u.unions.insert(0, members.clone());
+    u.solvs.insert(n, Solv { name: 1, rank: 0, deps: Deps::Known { reqs: if members.len() >= 2 { vec![Req::Union(0)] } else { vec![Req::Single(members[0])] }, cons: vec![] } });
+    u.pkgs.insert(1, Pkg { cands: vec![n], ..Default::default() });
+    let r_vs = vs_id; u.vsets.insert(r_vs, VSet { name: 1, matching: vec![n] }); vs_id += 1;
+    let ci = *rng.pick(&ids);
+    let vi = vs_id; u.vsets.insert(vi, VSet { name: 0, matching: vec![ci] }); vs_id += 1;
+    let mut p = Problem::default();
+    let pair = n >= 2 && rng.chance(1, 2);
+    let mut reqs = vec![Req::Single(r_vs), Req::Single(vi)];
+    if pair {
+        let mut cj = *rng.pick(&ids); while cj == ci { cj = *rng.pick(&ids); }
+        u.vsets.insert(vs_id, VSet { name: 0, matching: vec![cj] });
+        reqs.push(Req::Single(vs_id));
+    }
+    rng.shuffle(&mut reqs);
+    p.reqs = reqs;
+    let mut lines = u.to_lines();
+    lines.push(p.to_line());
+    lines.push(format!("expect {}", if pair { "unsat" } else { "ok" }));
+    lines.push(Config { render: false, ..Config::default() }.to_line());
     lines
 }
 
